@@ -5,7 +5,7 @@
    (DESIGN.md, C06 partial). *)
 From Coq Require Import ZArith List.
 From TS Require Import Base.F32 Model.Rect Model.Edge Model.Hairline Model.LineClip Proofs.RectPoints Proofs.HairlineProofs Proofs.LineClipProofs Proofs.HairlineChain.
-From TS Require Import Model.RunC06.
+From TS Require Import Model.RunC06 Proofs.LineClipFinite Proofs.HairlineFinal.
 Import ListNotations.
 Local Open Scope Z_scope.
 
@@ -85,6 +85,27 @@ Theorem C06_hair_line_rgn_seg_in_clip :
      exists bnd, from_ltrb (F32.min (px a) (px b)) (F32.min (py a) (py b)) (F32.max (px a) (px b)) (F32.max (py a) (py b)) = Some bnd) ->
   hair_line_rgn_seg w h p0 p1 = Some bl -> In (x, y) bl -> 0 <= x < w /\ 0 <= y < h.
 Proof. exact hair_line_rgn_seg_in_clip. Qed.
+
+(* the clipper's result is finite: its binary64 interpolation b0 + (t - a0) * (b1 - b0) / (a1 - a0) cannot overflow on binary32
+   inputs (the divisor is at least 2^-13 in magnitude when it is not "nearly zero"), nothing is a NaN, and a non-NaN value
+   that is not outside a finite interval is finite *)
+Theorem C06_line_clip_finite :
+  forall s0 s1 clip bnd p q,
+  fin (px s0) -> fin (py s0) -> fin (px s1) -> fin (py s1) -> clip_ok clip ->
+  from_ltrb (F32.min (px s0) (px s1)) (F32.min (py s0) (py s1)) (F32.max (px s0) (px s1)) (F32.max (py s0) (py s1)) = Some bnd ->
+  intersect s0 s1 clip = Some (p, q) ->
+  (fin (px p) /\ fin (py p) /\ fin (px q) /\ fin (py q)) /\ nout clip p /\ nout clip q.
+Proof. exact intersect_finite. Qed.
+
+(* END TO END without a side condition: a hairline segment between finite points whose bounding box is a valid Rect (every
+   segment of a Path has one: C14) blits only inside the w x h target, whatever its coordinates *)
+Theorem C06_hair_line_segment_in_clip :
+  forall w h p0 p1 bnd bl x y,
+  1 <= w <= 32767 -> 1 <= h <= 32767 ->
+  fin (px p0) -> fin (py p0) -> fin (px p1) -> fin (py p1) ->
+  from_ltrb (F32.min (px p0) (px p1)) (F32.min (py p0) (py p1)) (F32.max (px p0) (px p1)) (F32.max (py p0) (py p1)) = Some bnd ->
+  hair_line_rgn_seg w h p0 p1 = Some bl -> In (x, y) bl -> 0 <= x < w /\ 0 <= y < h.
+Proof. exact hair_line_segment_in_clip. Qed.
 
 (* non-vacuity: a diagonal from (1.5,1.5) to (5.5,3.5) on an 8x8 clip *)
 Example C06_example :
